@@ -62,6 +62,7 @@ pub fn runs_for(prop: Prop, tier: Tier) -> u64 {
         Tier::Thorough => match prop {
             Prop::C17 => q * 4,
             Prop::C07 => q * 6,
+            Prop::C11 => q * 5,
             _ => q * 10,
         },
     }
@@ -860,6 +861,8 @@ pub fn check_main(prop: Prop, tier: Tier, seed: u64) -> i32 {
             "runs_planned": total,
             "runs_per_hour": if wall > 0.0 { (runs_done as f64 / wall * 3600.0) as u64 } else { 0 },
             "simulated_clock_ticks": stats.counters.get("sim.clock-ticks").copied().unwrap_or(0),
+            "simulated_plies": stats.counters.get("plies").copied().unwrap_or(0),
+            "positions_monitored": stats.counters.get("positions").copied().unwrap_or(0),
             "faults_fired": faults,
             "reach_probes": probes,
             "counters": stats.counters,
